@@ -2102,7 +2102,7 @@ void reset_object (object_t * ob) {
     {
       /* Be sure to update time first ! */
       ob->next_reset = current_time + CONFIG_INT (__TIME_TO_RESET__) / 2 +
-        rand () % (CONFIG_INT (__TIME_TO_RESET__) / 2);
+        (CONFIG_INT (__TIME_TO_RESET__) > 1 ? rand () % (CONFIG_INT (__TIME_TO_RESET__) / 2) : 0);
     }
 
   save_command_giver = command_giver;
@@ -2158,7 +2158,7 @@ void call_create (object_t * ob, int num_arg) {
     {
       /* Be sure to update time first ! */
       ob->next_reset = current_time + CONFIG_INT (__TIME_TO_RESET__) / 2 +
-        rand () % (CONFIG_INT (__TIME_TO_RESET__) / 2);
+        (CONFIG_INT (__TIME_TO_RESET__) > 1 ? rand () % (CONFIG_INT (__TIME_TO_RESET__) / 2) : 0);
     }
 
   call___INIT (ob);
